@@ -11,6 +11,7 @@ import (
 	"github.com/Vedant9500/WTF/internal/database"
 	"github.com/Vedant9500/WTF/verifharness/gen"
 	"github.com/Vedant9500/WTF/verifharness/ref"
+	"pgregory.net/rapid"
 )
 
 // rankItem is one result as (index of the entry in db.Commands, score bits).
@@ -141,4 +142,20 @@ func cloneCmds(in []database.Command) []database.Command {
 			Keywords: append([]string(nil), c.Keywords...), Tags: append([]string(nil), c.Tags...), Platform: append([]string(nil), c.Platform...)}
 	}
 	return out
+}
+
+// warmUp issues 0-3 unrelated searches on db before the search under test: a Database is
+// a long-lived value, and an answer must not depend on what was asked of it before
+// (memoised filter verdicts, lazily filled caches, corpora keyed too coarsely, ...).
+func warmUp(t *rapid.T, db *database.Database, cmds []database.Command) int {
+	n := rapid.SampledFrom([]int{0, 0, 1, 2, 3}).Draw(t, "warmups")
+	for i := 0; i < n; i++ {
+		q, _ := gen.Query(t, cmds, []gen.QueryClass{"vocab", "stop", "one", "typo", "fragment", "nlp"})
+		o := gen.Options(t, gen.OptSpec{N: len(cmds), NoNegLimit: true})
+		if rapid.Bool().Draw(t, "warm-fuzzy") {
+			o.UseFuzzy = true
+		}
+		db.SearchUniversal(q, o)
+	}
+	return n
 }
